@@ -28,7 +28,10 @@ def run(rep, props, replay=None):
         kind = fd.GRID_KINDS[i % len(fd.GRID_KINDS)]
         n = int(rng.integers(2, 9 if quick else 40))
         m = int(rng.integers(3, 13 if quick else 40))
-        x = fd.grid(rng, m, kind)
+        if i % 8 == 7:
+            m = int(rng.integers(2, 11))          # short curves: m == order and m == order + 1 occur
+        x = fd.grid(rng, max(m, 2), kind)
+        m = len(x)
         style = i % 3
         if style == 0:
             X = fd.dyadic_matrix(rng, n, m)
@@ -47,8 +50,12 @@ def run(rep, props, replay=None):
         t = runq.add(f"mclose {C.qlit(1e-9 * sc * sc)} (cov_sym {m}%nat {C.qmat(X)}) {C.qmat(cov)}")
         todo.append((t, "covariance", kind, X))
         monitors_cov(rep, rng, d, cov, x, X)
-        for order in ([1, 2, int(rng.integers(3, 11))] if quick else range(1, 11)):
+        for order in (sorted({1, 2, int(rng.integers(3, 11)), min(m, 10), min(max(m - 1, 1), 10)}) if quick else range(1, 11)):
             nv = d.noise_variance(order=order)
+            if not np.isfinite(nv):
+                rep.violation(f"noise_variance(order={order}) is not finite for curves with {m} points",
+                              {"x": C.hexf(x), "X": C.hexf(X), "order": order})
+                continue
             t = runq.add(f"qclose {C.qlit(1e-9 * sc * sc)} (noise_var opsQ (dseq {order}%nat) {C.qmat(X)}) {C.qlit(nv)}")
             todo.append((t, f"noise-variance", kind, X))
             per = [_estimate_noise_variance(X[k], order) for k in range(n)]
@@ -110,7 +117,10 @@ def monitors_smoothed_cov(rep, rng, n, quick):
     X = fd.smooth_curves(rng, max(n, 4), x) + 0.05 * rng.normal(size=(max(n, 4), m))
     d = fd.dense(x, X)
     pts = DenseArgvals({"input_dim_0": np.linspace(0, 1, 6)})
-    for meth, kw in (("LP", {"bandwidth": 0.4}), ("PS", {"n_segments": 4, "penalty": (1.0, 1.0)})):
+    for meth, kw in (("LP", {"bandwidth": 0.4}), ("PS", {"n_segments": 4, "penalty": (1.0, 1.0)}),
+                     ("PS", {"n_segments": 4, "penalty": (0.1, 20.0)}),
+                     ("PS", {"n_segments": np.array([3, 6]), "penalty": (1.0, 1.0)}),
+                     ("LP", {"bandwidth": 0.25, "degree": 1})):
         try:
             c = np.asarray(d.covariance(points=pts, method_smoothing=meth, **kw).values)[0]
         except Exception as e:  # noqa: BLE001
